@@ -88,7 +88,9 @@ func cmdList(args []string) int {
 		return st, out, nil
 	}
 	for ci := 0; ci < nCfg; ci++ {
-		fx, err := NewFixture(ctx, 2, 3, false)
+		// "=...": an account of the last wallet that holds the SAME key as the first account of the first wallet
+		// (a validator key imported into a second wallet)
+		fx, err := NewFixture(ctx, 2, 3, false, "=Account 0 migrated")
 		if err != nil {
 			fmt.Fprintln(os.Stderr, "fixture:", err)
 			return 2
@@ -146,6 +148,14 @@ func cmdList(args []string) int {
 		}
 		var overlay []acc
 		nextID := 100
+		// judged by the independent reading of the permission semantics (the real checker only where that
+		// reading does not apply)
+		permitted := func(creds *checker.Credentials, path string) bool {
+			if v, ok := specCheck(pc, creds.Client, path, "Access account"); ok {
+				return v
+			}
+			return node.Checker.Check(ctx, creds, path, "Access account")
+		}
 		defs = append(defs, fmt.Sprintf("Definition t%d : ptable := %s.", ci, pc.coq()))
 		for call := 0; call < nCalls; call++ {
 			// dynamic creation in between
@@ -282,7 +292,7 @@ func cmdList(args []string) int {
 				obs = append(obs, fmt.Sprintf("(%s, %s, %s)", coqStr(wn), coqStr(a.Name()), coqN(kid)))
 				got = append(got, wn+"/"+a.Name())
 				// soundness, judged with the real checker: permitted and inside a requested wallet
-				if !node.Checker.Check(ctx, creds, wn+"/"+a.Name(), "Access account") {
+				if !permitted(creds, wn+"/"+a.Name()) {
 					monFail = append(monFail, fmt.Sprintf("permissions {%s}: listing %v for %q returned %s/%s without the Access account permission", pc.text(), texts, client, wn, a.Name()))
 				}
 				inReq := false
@@ -310,7 +320,7 @@ func cmdList(args []string) int {
 							matches = re.MatchString(x.N)
 						}
 					}
-					if matches && node.Checker.Check(ctx, creds, x.W+"/"+x.N, "Access account") {
+					if matches && permitted(creds, x.W+"/"+x.N) {
 						found := false
 						for _, g := range got {
 							if g == x.W+"/"+x.N {
